@@ -38,8 +38,9 @@ type coreView struct {
 	unds []string // id complete amount hold
 	qs   []string // prefix epoch item
 	cur  []string // operator cons
-	prev []string
+	prev []string // operator cons (key replaced during the running epoch)
 	rev  []string // cons operator
+	vals []string // cons power (x/dogfood validator store)
 }
 
 func viewCore(c *Chain, ctx sdk.Context) (v coreView) {
@@ -77,7 +78,11 @@ func viewCore(c *Chain, ctx sdk.Context) (v coreView) {
 	}
 	prevs, _ := c.App.OperatorKeeper.GetAllPrevConsKeys(ctx)
 	for _, p := range prevs {
-		v.prev = append(v.prev, fmt.Sprintf("%x %s", sha8([]byte(p.Key)), consHex(p.ConsensusKey)))
+		op := p.Key // chainID/operator
+		if i := strings.LastIndexByte(op, '/'); i >= 0 {
+			op = op[i+1:]
+		}
+		v.prev = append(v.prev, fmt.Sprintf("%s %s", op, consHex(p.ConsensusKey)))
 	}
 	ost := ctx.KVStore(c.App.GetKey(operatortypes.StoreKey))
 	it := sdk.KVStorePrefixIterator(ost, []byte{operatortypes.BytePrefixForChainIDAndConsKeyToOperator})
@@ -86,6 +91,10 @@ func viewCore(c *Chain, ctx sdk.Context) (v coreView) {
 		v.rev = append(v.rev, fmt.Sprintf("%s %s", hex.EncodeToString(k[len(k)-20:]), sdk.AccAddress(it.Value()).String()))
 	}
 	it.Close()
+	for _, val := range c.App.StakingKeeper.GetAllExocoreValidators(ctx) {
+		v.vals = append(v.vals, fmt.Sprintf("%s %d", hex.EncodeToString(val.Address), val.Power))
+	}
+	sort.Strings(v.vals)
 	sort.Strings(v.cur)
 	sort.Strings(v.prev)
 	sort.Strings(v.rev)
@@ -106,7 +115,7 @@ func (v coreView) obs() string {
 		f := strings.Fields(q)
 		qs[i] = strings.Join(f[:3], " ") // prefix epoch digest (the record ids are an input of the model only)
 	}
-	return fmt.Sprintf("und=[%s] q=[%s] rev=[%s]", strings.Join(v.unds, ","), strings.Join(qs, ","), strings.Join(v.rev, ","))
+	return fmt.Sprintf("und=[%s] q=[%s] rev=[%s] val=[%s]", strings.Join(v.unds, ","), strings.Join(qs, ","), strings.Join(v.rev, ","), strings.Join(v.vals, ","))
 }
 
 func (w *genWorld) emitCore(v coreView) {
@@ -123,20 +132,22 @@ func (w *genWorld) emitCore(v coreView) {
 	for _, k := range v.prev {
 		w.op("gen.prev "+k, "ok")
 	}
+	for _, k := range v.vals {
+		w.op("gen.val "+k, "ok")
+	}
 	for _, k := range v.rev {
 		w.op("gen.rev "+k, "ok")
 	}
 }
-
-var f18hRaised bool
 
 var reUpdateTime = regexp.MustCompile(`"update_time":"[^"]*"`)
 
 // whitelisted store prefixes per module: known gaps, each demonstrated by the directed scenario under its own sig
 var knownGapPrefixes = map[string]map[byte]string{
 	// F-18a (dogfood 0x05/0x06/0x0d) and F-18b (delegation 0x06) are repaired: no longer whitelisted
-	"dogfood":         {0x0c: "historical info (ephemeral)", 0x0f: "validator updates (ephemeral)"},
-	"operator":        {0x0a: "F-18c reverse lookup of replaced keys", 0x01: "F-18g commission update_time"},
+	"dogfood": {0x0c: "historical info (ephemeral)", 0x0f: "validator updates (ephemeral)"},
+	// F-18g (operator 0x01, commission update_time) and F-18h (dogfood 0x01) are repaired: no longer whitelisted;
+	// operator 0x0a (reverse lookups) is classified entry by entry in check(): F-18c repaired, F-18i open
 	"oracle":          {0x4b: "F-18f oracle nonces"},
 	"feedistribution": {0x00: "F-18e", 0x02: "F-18e", 0x03: "F-18e", 0x66: "F-18e", 0x01: "F-18e", 0x04: "F-18e", 0x05: "F-18e", 0x06: "F-18e", 0x07: "F-18e"},
 }
@@ -155,6 +166,11 @@ func (w *genWorld) check(res roundTripResult, v1, v2 coreView, directed bool) {
 	env := w.env
 	env.Eval("C18.import")
 	if res.importErr != "" {
+		if strings.Contains(res.importErr, "operator not found for key") && len(v1.prev) > 0 {
+			// F-18c (repaired) as it shows once val_set carries the stored keys: x/dogfood InitGenesis cannot resolve the
+			// validator's (replaced, still active) key because its reverse lookup was not rebuilt by x/operator
+			env.Violate("C18.import", "prev-key-reverse-lost", "the reverse lookup of a key replaced during the running epoch is not rebuilt at import: x/dogfood InitGenesis fails with "+res.importErr, w.hist)
+		}
 		env.Violate("C18.import", "import-failed", "export/import failed: "+res.importErr, w.hist)
 		return
 	}
@@ -170,9 +186,10 @@ func (w *genWorld) check(res roundTripResult, v1, v2 coreView, directed bool) {
 	}
 	env.Eval("C18.json")
 	for i, m := range res.jsonDiff {
-		if m == "operator" {
-			env.Outcome("gap:F-18g")
-			continue // compared below with update_time masked
+		if m == "operator" && strings.Contains(res.jsonWhere[i], "update_time") {
+			// F-18g (repaired): kept under its own sig so that a re-introduction is reported as such
+			env.Violate("C18.json", "operator-update-time", "InitGenesis changed an operator's commission update_time: "+res.jsonWhere[i], w.hist)
+			continue
 		}
 		env.Violate("C18.json", "json:"+m, "second export differs from the first: "+res.jsonWhere[i], w.hist)
 	}
@@ -190,13 +207,31 @@ func (w *genWorld) check(res roundTripResult, v1, v2 coreView, directed bool) {
 	for _, m := range sortedKeys(res.storeDiff) {
 		for _, k := range res.storeDiff[m] {
 			p := keyPrefixOf(k)
-			if m == "dogfood" && p == 0x01 && len(v1.rev) > len(v1.cur) {
-				// F-18h: the exported validator set carries the operator's CURRENT key for a validator that still
-				// validates with the replaced one
-				env.Outcome("gap:F-18h:dogfood")
-				if !f18hRaised && k[0] == '-' {
-					f18hRaised = true // reproduced by the first random history that has a validator with a replaced key
-					env.Violate("C18.store", "validator-key-rotated-early", "a validator whose consensus key was replaced during the epoch is exported under the NEW key (IterateBondedValidatorsByPower resolves the stored old key to the operator's current key): the re-imported chain starts with the new key, the original rotates at the end of the epoch", w.hist)
+			if m == "dogfood" && p == 0x01 {
+				// F-18h (repaired): kept under its own sig so that a re-introduction is reported as such
+				env.Violate("C18.store", "validator-key-rotated-early", "a validator entry of x/dogfood differs after the round trip (a validator whose consensus key was replaced during the epoch must be exported under the key it still validates with, not under the operator's new key): "+describeKeys([]string{k}), w.hist)
+				continue
+			}
+			if m == "operator" && p == 0x0a {
+				// reverse lookup cons -> operator: of a key replaced in the running epoch (PrevConsKey record present:
+				// F-18c, repaired) or of a key whose record was cleared and that waits in the prune queue (F-18i, open)
+				cons := ""
+				if b, err := hex.DecodeString(k[1:]); err == nil && len(b) >= 20 {
+					cons = hex.EncodeToString(b[len(b)-20:])
+				}
+				isPrev := false
+				for _, pk := range v1.prev {
+					if strings.HasSuffix(pk, " "+cons) {
+						isPrev = true
+					}
+				}
+				if isPrev {
+					env.Violate("C18.store", "prev-key-reverse-lost", "the reverse lookup (consensus address "+cons+" -> operator) of a key replaced during the running epoch is missing after the round trip", w.hist)
+				} else {
+					env.Outcome("gap:F-18i:operator")
+					if directed {
+						env.Violate("C18.store", "pruning-key-reverse-lost", "the reverse lookup (consensus address "+cons+" -> operator) of a replaced key whose PrevConsKey record was cleared at the end of its epoch and that waits in x/dogfood's prune queue is in no export: missing after the round trip", w.hist)
+					}
 				}
 				continue
 			}
@@ -220,28 +255,17 @@ func (w *genWorld) check(res roundTripResult, v1, v2 coreView, directed bool) {
 			}
 			return n
 		}
-		if n := lost("dogfood", 0x01); n > 0 && len(v1.rev) > len(v1.cur) {
-			env.Violate("C18.store", "validator-key-rotated-early", fmt.Sprintf("%d validator(s) whose consensus key was replaced during the epoch are exported under the NEW key (IterateBondedValidatorsByPower resolves the stored old key to the operator's current key): the re-imported chain rotates the key immediately, the original at the end of the epoch", n), w.hist)
-		}
 		if n := lost("dogfood", 0x05, 0x06, 0x0d); n > 0 {
 			env.Violate("C18.store", "dogfood-queues-lost", fmt.Sprintf("%d dogfood entries (consensus addresses to prune, undelegations to mature, maturity-epoch index) are missing after the round trip: GetAllConsAddrsToPrune and GetAllUndelegationsToMature iterate OptOutsToFinishBytePrefix", n), w.hist)
 		}
 		if n := lost("delegation", 0x06); n > 0 {
 			env.Violate("C18.store", "hold-count-lost", fmt.Sprintf("%d undelegation hold counts are neither exported nor rebuilt", n), w.hist)
 		}
-		if n := lost("operator", 0x0a); n > 0 {
-			env.Violate("C18.store", "prev-key-reverse-lost", fmt.Sprintf("%d consensus-address -> operator reverse lookups of replaced, not yet pruned keys are missing after the round trip", n), w.hist)
-		}
 		if n := len(res.storeDiff["feedistribution"]); n > 0 {
 			env.Violate("C18.store", "feedistribution-state-lost", fmt.Sprintf("x/feedistribution exports only its params: %d store entries (outstanding rewards, commissions, staker rewards, fee pool) are missing after the round trip", n), w.hist)
 		}
 		if n := lost("oracle", 0x4b); n > 0 {
 			env.Violate("C18.store", "oracle-nonce-lost", fmt.Sprintf("%d oracle validator nonces are not exported", n), w.hist)
-		}
-		for i, m := range res.jsonDiff {
-			if m == "operator" {
-				env.Violate("C18.json", "operator-update-time", "InitGenesis overwrites every operator's commission update_time with the import block time: "+res.jsonWhere[i], w.hist)
-			}
 		}
 	}
 	env.Eval("C18.behaviour")
@@ -251,12 +275,9 @@ func (w *genWorld) check(res roundTripResult, v1, v2 coreView, directed bool) {
 			env.Violate("C18.behaviour", "early-release", d, w.hist)
 			continue
 		}
-		if strings.Contains(d, "core state differs") && len(v1.rev) > len(v1.cur) {
-			env.Outcome("gap:F-18h:behaviour") // validator key of a replaced key differs (F-18h), nothing else may
-			continue
-		}
-		if len(v1.rev) > len(v1.cur) && strings.Contains(d, "validator") {
-			env.Outcome("gap:F-18h:behaviour")
+		if strings.Contains(d, "validator") {
+			// F-18h (repaired): both chains must keep the same validator set and emit the same updates
+			env.Violate("C18.behaviour", "validator-key-rotated-early", d, w.hist)
 			continue
 		}
 		env.Violate("C18.behaviour", "behaviour", d, w.hist)
@@ -402,6 +423,7 @@ func domGenesis(env *Env) error {
 		_ = w.replaceKey(2)
 		c.EndAndBegin(time.Hour + time.Second)
 		c.EndAndBegin(time.Hour + time.Second)
+		c.EndAndBegin(time.Minute) // not the block that ends the epoch: the PrevConsKey records survive until the export
 		_ = w.replaceKey(2)
 		_ = w.replaceKey(0)
 		w.runOne(0, true, 4)
